@@ -246,7 +246,12 @@ class CoroRun:
                 self.stats["crashes"] += 1
                 j = byid.get(csid)
                 plans = self.plansets[j[1]] if j else []
-                if timed_out:
+                ss0 = core.san_summary(err)
+                if timed_out and ss0:
+                    # the sanitizer had already reported when the watchdog fired (it was still printing the report):
+                    # the report is the finding, not the wait
+                    key_o = ss0[0] + ":" + ">".join(ss0[1][:4])
+                elif timed_out:
                     hf = core.hang_summary(err)
                     key_o = "hang" + (":" + ">".join(hf) if hf else "")
                 elif rc == 89 and "event log overflow" in err:
